@@ -70,7 +70,7 @@ class D(Driver):
     )
     nt_floor = {"quick": 300, "thorough": 6000}
     feature_floors = {"noise_comment": 50, "noise_pi": 50, "noise_wrapper_g": 50, "noise_foreign_attr": 50, "noise_foreign_el": 50,
-                      "noise_anon_symbol": 50, "noise_whitespace": 50, "noise_title": 30, "noise_metadata": 30}
+                      "noise_anon_symbol": 50, "noise_whitespace": 50, "noise_title": 30, "noise_metadata": 30, "compared_with_drop_unsupported": 200}
     time_budget = {"quick": 150, "thorough": 1200}
 
     def cases(self, tier, seed):
@@ -119,12 +119,18 @@ class D(Driver):
             resolve(n)
         return r if hit else None
 
-    def compare(self, res, d0, d1, what, deep, roots=None):
+    def compare(self, res, d0, d1, what, deep, roots=None, opts=None):
         res["evals"] += 1
         nd = 3
-        s0, o0 = conv.convert(d0, ndigits=nd)
-        s1, o1 = conv.convert(d1, ndigits=nd)
-        rp = {"kind": "pair", "d0": d0, "d1": d1}
+        opts = opts or {}
+        if opts.get("drop_unsupported"):
+            bump(res["features"], "compared_with_drop_unsupported")
+        if opts.get("allow_text"):
+            bump(res["features"], "compared_with_allow_text")
+        s0, o0 = conv.convert(d0, ndigits=nd, **opts)
+        s1, o1 = conv.convert(d1, ndigits=nd, **opts)
+        rp = {"kind": "pair", "d0": d0, "d1": d1, "opts": opts}
+        what = what + (f" {opts}" if opts else "")
         if s0 != s1:
             who = "the noisy document" if s1 == "exc" else "the clean document"
             e = o1 if s1 == "exc" else o0
@@ -144,8 +150,8 @@ class D(Driver):
             if roots is not None:
                 a, b = self._inline_templates(roots[0]), self._inline_templates(roots[1])
                 if a is not None and b is not None:
-                    sa, oa = conv.convert(gd.to_xml(a), ndigits=nd)
-                    sb, ob = conv.convert(gd.to_xml(b), ndigits=nd)
+                    sa, oa = conv.convert(gd.to_xml(a), ndigits=nd, **opts)
+                    sb, ob = conv.convert(gd.to_xml(b), ndigits=nd, **opts)
                     try:
                         if sa == sb == "ok" and xmlcanon.equivalent(oa, ob)[0]:
                             mech = "gradient-template-order"
@@ -190,7 +196,10 @@ class D(Driver):
                     d1 = gd.to_xml(noisy, ws=rng.choice(("\n", "\n  ", " ")))
                     bump(res["features"], "noise_pretty_whitespace")
                 deep = any(h in ("g", "defs", "clipPath", "linearGradient", "radialGradient") for _, h in done)
-                self.compare(res, text, d1, ",".join(sorted({k for k, _ in done})), deep, roots=(root, noisy))
+                # the options of the conversion: noise must be irrelevant under each of them
+                ko = rng.random()
+                opts = {"drop_unsupported": True} if ko < 0.3 else {"allow_text": True} if ko < 0.4 else {"drop_unsupported": True, "allow_text": True} if ko < 0.45 else None
+                self.compare(res, text, d1, ",".join(sorted({k for k, _ in done})), deep, roots=(root, noisy), opts=opts)
         else:
             _, a, b = case
             rng = random.Random(f"C14-corpus-{a}")
@@ -217,5 +226,5 @@ class D(Driver):
 
     def replay(self, rp):
         res = new_result()
-        self.compare(res, rp["d0"], rp["d1"], "replay", True)
+        self.compare(res, rp["d0"], rp["d1"], "replay", True, opts=rp.get("opts"))
         return res["viol"]
